@@ -205,6 +205,24 @@ def build():
          rules=GRULES + [('N12', r'fn get_mut_or_default\(&mut self,', "fn get_mut_or_default<'a: 'b, 'b, 'x, T: Component + DefaultSpec>(self_: &'x mut &'b mut WriteStorage<'a, T>,"),
                          ('N12', r'\bself\b', 'self_'), ('N8', r"Option<&mut T>", "Option<&'x mut T>")],
          requires=[E('data_wf', 'old(self_).data.wf()'), E('ents', 'ent_ok(old(self_).entities)')], ensures=GMD_ENS('self_'))
+    # ---- is_empty / negation / restricted views
+    for (hdr, tag) in [(HR, '&'), (HW, '&mut')]:
+        D = 'self.data' if tag == '&' else 'old(self.data)'
+        u.fn(S, [SIMPL, 'fn is_empty'], ret='r', props='C04', impl_header=hdr, key='Storage(%s)::is_empty' % tag, rules=N8,
+             ensures=[E('map', 'r == (%s@.dom() =~= Set::<Index>::empty())' % D)])
+    u.struct(S, ['struct AntiStorage'])
+    u.fn(S, ["impl<'a, 'e, T, D> Not for &'a Storage<'e, T, D>", 'fn not'], ret='r', props='C06', key='Storage(&)::not',
+         impl_header="impl<'e, 'd, T> Storage<'e, T, &'d MaskedStorage<T>> where T: Component,",
+         rules=[('N12', r'fn not\(self\) -> Self::Output', "fn not<'a>(&'a self) -> AntiStorage<'a>")],
+         ensures=[E('mask', 'r.0@ == self.data.mask@')])
+    u.struct('src/storage/restrict.rs', ['struct RestrictedStorage'])
+    u.fn('src/storage/restrict.rs', ["impl<T, D> Storage<'_, T, D>", 'fn restrict'], ret='r', props='C13', key='Storage(&)::restrict', nth=0,
+         impl_header="impl<'e, 'd, T> Storage<'e, T, &'d MaskedStorage<T>> where T: Component,",
+         ensures=[E('same', '*r.bitset == self.data.mask && *r.data == self.data.inner && **r.entities == *self.entities')])
+    u.fn('src/storage/restrict.rs', ["impl<T, D> Storage<'_, T, D>", 'fn restrict_mut'], ret='r', props='C13', key='Storage(&mut)::restrict_mut',
+         impl_header=HW,
+         ensures=[E('same', '*r.bitset == old(self).data.mask && *r.data == old(self).data.inner && **r.entities == *old(self).entities'),
+                  E('final', 'final(self).data.inner == *final(r.data) && final(self).data.mask == old(self).data.mask')])
     # ---- restricted storages (src/storage/restrict.rs): paired items
     RS = 'src/storage/restrict.rs'
     u.struct(RS, ['struct PairedStorageRead'])
